@@ -45,6 +45,13 @@ pub struct Registry {
     pub io: std::cell::RefCell<crate::phyio::IoCtx>,
     /// builder N: "Enum::Variant" -> field names of a struct-like variant (types are in `enum_data`)
     pub enum_named: HashMap<String, Vec<String>>,
+    /// builder W: while the pattern of an arm of `match &mut PLACE { .. }` is translated: PLACE (root, field chain)
+    pub mut_scrut: std::cell::RefCell<Option<(String, Vec<String>)>>,
+    /// builder W: variables such a pattern `Enum::V(x, ..)` binds — references into PLACE in the source, copies in the
+    /// model: variable -> (root, field chain, Lean constructor, all variables of the pattern).  Every translated
+    /// mutation of such a variable is followed by `PLACE := Enum.V x ..`, so the place always holds what the
+    /// reference points at (`ref_writeback`)
+    pub ref_binds: std::cell::RefCell<HashMap<String, (String, Vec<String>, String, Vec<String>)>>,
 }
 
 pub fn int_ty(name: &str) -> Option<&'static str> {
@@ -297,7 +304,45 @@ impl<'a> FnTr<'a> {
                                 Pat::Type(pt) => &*pt.pat,
                                 p => p,
                             };
-                            let desugared: Stmt = parse_quote! { let Some(#pat) = #inner else { return None; }; };
+                            // builder W: `let PAT = match e { P1 => Ok(v), P2 => Err(x), P3 => r }?;` — the `?` is distributed
+                            // over the arms and the rest of the block continued in each (`Ok(v)`: `let PAT = v; rest`,
+                            // `Err(x)`: leave with the error, otherwise `let PAT = r?; rest`), so that what an arm
+                            // mutates reaches the rest
+                            if let (Expr::Match(m), false) = (&**inner, self.muts.is_empty()) {
+                                let rest = &stmts[i + 1..];
+                                let mut m2 = m.clone();
+                                for arm in m2.arms.iter_mut() {
+                                    let body = &arm.body;
+                                    let ctor = match &**body {
+                                        Expr::Call(c) if c.args.len() == 1 => match &*c.func {
+                                            Expr::Path(p) if p.path.is_ident("Ok") || p.path.is_ident("Some") => Some(true),
+                                            Expr::Path(p) if p.path.is_ident("Err") => Some(false),
+                                            _ => None,
+                                        },
+                                        Expr::Path(p) if p.path.is_ident("None") => Some(false),
+                                        _ => None,
+                                    };
+                                    let nb: Expr = match (ctor, &**body) {
+                                        (Some(true), Expr::Call(c)) => {
+                                            let v = &c.args[0];
+                                            parse_quote!({ let #pat = #v; #(#rest)* })
+                                        }
+                                        (Some(false), _) => parse_quote!({ return None; }),
+                                        _ => parse_quote!({ let #pat = (#body)?; #(#rest)* }),
+                                    };
+                                    arm.body = Box::new(nb);
+                                }
+                                let stmt = Stmt::Expr(Expr::Match(m2), Some(Default::default()));
+                                let seq = self.block_tail(&[stmt], env)?;
+                                st.extend(seq.stmts);
+                                return Ok(Seq { stmts: st, tail: seq.tail });
+                            }
+                            // builder W: an initialiser that ends in `}` (`match … { … }?`) needs parentheses in a let-else
+                            let desugared: Stmt = if matches!(&**inner, Expr::Match(_) | Expr::If(_) | Expr::Block(_)) {
+                                parse_quote! { let Some(#pat) = (#inner) else { return None; }; }
+                            } else {
+                                parse_quote! { let Some(#pat) = #inner else { return None; }; }
+                            };
                             let mut rest: Vec<Stmt> = vec![desugared];
                             rest.extend(stmts[i + 1..].iter().cloned());
                             let seq = self.block_tail(&rest, env)?;
@@ -525,7 +570,7 @@ impl<'a> FnTr<'a> {
                             let mut arms = vec![];
                             for arm in &m.arms {
                                 let mut env_a = env.clone();
-                                let p = self.pat(&arm.pat, &sty, &mut env_a)?;
+                                let p = self.pat_scrut(&m.expr, &arm.pat, &sty, &mut env_a)?;
                                 let body: Vec<Stmt> = match &*arm.body {
                                     Expr::Block(b) => b.block.stmts.clone(),
                                     other => vec![Stmt::Expr(other.clone(), Some(Default::default()))],
@@ -587,11 +632,13 @@ impl<'a> FnTr<'a> {
                             let (root, fields, pty) = self.place(&a.left, env)?;
                             let (term, _) = self.ex(&a.right, env, &mut st, Some(pty))?;
                             st.push((lean_ident(&root), Rhs::Pure(update_term(&lean_ident(&root), &fields, &term))));
+                            self.ref_writeback(&root, &mut st);
                         }
                         Expr::Binary(b) if is_assign_op(&b.op) && !matches!(&*b.left, Expr::Path(_)) => {
                             let (root, fields, pty) = self.place(&b.left, env)?;
                             let (term, _) = self.binop(&b.left, &assign_to_bin(&b.op), &b.right, env, &mut st, Some(pty))?;
                             st.push((lean_ident(&root), Rhs::Pure(update_term(&lean_ident(&root), &fields, &term))));
+                            self.ref_writeback(&root, &mut st);
                         }
                         // builder L: a call for its effect on `&mut` arguments
                         Expr::MethodCall(_) | Expr::Call(_) if !self.muts.is_empty() => {
@@ -613,7 +660,7 @@ impl<'a> FnTr<'a> {
                             let mut arms = vec![];
                             for arm in &m.arms {
                                 let mut env_a = env.clone();
-                                let p = self.pat(&arm.pat, &sty, &mut env_a)?;
+                                let p = self.pat_scrut(&m.expr, &arm.pat, &sty, &mut env_a)?;
                                 let body: Vec<Stmt> = match &*arm.body {
                                     Expr::Block(b) => b.block.stmts.clone(),
                                     other => vec![Stmt::Expr(other.clone(), Some(Default::default()))],
@@ -1135,6 +1182,29 @@ impl<'a> FnTr<'a> {
         None
     }
 
+    /// builder W: the pattern of an arm of `match SCRUT { .. }`; when SCRUT is `&mut PLACE` the variables a variant
+    /// pattern binds are registered as references into PLACE (`ref_binds`)
+    fn pat_scrut(&mut self, scrut: &Expr, p: &Pat, ty: &Ty, env: &mut Env) -> Res<String> {
+        let place = match scrut {
+            Expr::Reference(r) if r.mutability.is_some() => self.place(&r.expr, env).ok().map(|(root, fields, _)| (root, fields)),
+            _ => None,
+        };
+        *self.reg.mut_scrut.borrow_mut() = place;
+        let r = self.pat(p, ty, env);
+        *self.reg.mut_scrut.borrow_mut() = None;
+        r
+    }
+
+    /// builder W: after a translated mutation of the variable `root`: if it is a reference into a place, the place is
+    /// updated
+    fn ref_writeback(&mut self, root: &str, st: &mut Stmts) {
+        let b = self.reg.ref_binds.borrow().get(root).cloned();
+        if let Some((proot, pfields, ctor, vars)) = b {
+            let value = format!("({} {})", ctor, vars.iter().map(|v| lean_ident(v)).collect::<Vec<_>>().join(" "));
+            st.push((lean_ident(&proot), Rhs::Pure(update_term(&lean_ident(&proot), &pfields, &value))));
+        }
+    }
+
     /// builder L: an assignable place: (root variable, field chain, type of the place)
     fn place(&mut self, e: &Expr, env: &Env) -> Res<(String, Vec<String>, Ty)> {
         match e {
@@ -1208,6 +1278,9 @@ impl<'a> FnTr<'a> {
         let pat = if names.len() == 1 { names[0].clone() } else { format!("({})", names.join(", ")) };
         st.push((pat, if sig.fallible { Rhs::Act(term) } else { Rhs::Pure(term) }));
         st.extend(post);
+        for (root, _) in &writebacks {
+            self.ref_writeback(root, st);
+        }
         Ok((rname, sig.ret.clone()))
     }
 
@@ -1457,6 +1530,7 @@ impl<'a> FnTr<'a> {
     }
 
     fn function_inner(&mut self, sig: &Signature, body: &Block, lean_name: &str) -> Res<(String, FnSig)> {
+        self.reg.ref_binds.borrow_mut().clear();
         // builder O (I/O mode): `-> Result<_, RadioError>` functions are actions of `Rt.Phy.IoM`
         if self.reg.io.borrow().mode && crate::phyio::is_io_fn(sig) {
             return crate::phyio::function_io(self, sig, body, lean_name);
@@ -1757,6 +1831,7 @@ impl<'a> FnTr<'a> {
                 let n = i.ident.to_string();
                 // unit enum variant used as a pattern without path? treat as binding
                 env.insert(n.clone(), ty.clone());
+                self.reg.ref_binds.borrow_mut().remove(&n);
                 Ok(lean_ident(&n))
             }
             Pat::Wild(_) => Ok("_".into()),
@@ -1797,8 +1872,24 @@ impl<'a> FnTr<'a> {
                         return Err(format!("pattern {}: arity", name));
                     }
                     let mut ps = vec![];
+                    let scrut = self.reg.mut_scrut.borrow_mut().take();
                     for (e, t) in ts.elems.iter().zip(tys.iter()) {
                         ps.push(paren(&self.pat(e, t, env)?));
+                    }
+                    // builder W: `match &mut PLACE { Enum::V(x, ..) => .. }`: the variables are references into PLACE
+                    if let Some((root, fields)) = scrut {
+                        let mut vars = vec![];
+                        let all_wild = ts.elems.iter().all(|e| matches!(e, Pat::Wild(_)));
+                        for e in ts.elems.iter() {
+                            match e {
+                                Pat::Ident(i) if i.subpat.is_none() => vars.push(i.ident.to_string()),
+                                Pat::Wild(_) if all_wild => {}
+                                _ => return Err(format!("pattern {} on `&mut` place: only plain variables are supported", name)),
+                            }
+                        }
+                        for v in &vars {
+                            self.reg.ref_binds.borrow_mut().insert(v.clone(), (root.clone(), fields.clone(), format!("{}.{}", en, lean_ident(&vn)), vars.clone()));
+                        }
                     }
                     Ok(format!(".{} {}", lean_ident(&vn), ps.join(" ")))
                 } else {
@@ -2074,7 +2165,7 @@ impl<'a> FnTr<'a> {
             let wseq = Seq { stmts: stw, tail: wt };
             for arm in &m.arms[..m.arms.len() - 1] {
                 let mut env_a = env.clone();
-                let p = self.pat(&arm.pat, &sty, &mut env_a)?;
+                let p = self.pat_scrut(&m.expr, &arm.pat, &sty, &mut env_a)?;
                 let mut stb = vec![];
                 let (t, ty) = self.tail_expr_ty(&arm.body, &mut env_a, &mut stb, expect.clone())?;
                 if !matches!(t, Tail::Panic) {
@@ -2095,9 +2186,15 @@ impl<'a> FnTr<'a> {
         } else {
             for arm in &m.arms {
                 let mut env_a = env.clone();
-                let p = self.pat(&arm.pat, &sty, &mut env_a)?;
+                let p = self.pat_scrut(&m.expr, &arm.pat, &sty, &mut env_a)?;
                 let mut stb = vec![];
-                let (t, ty) = self.tail_expr_ty(&arm.body, &mut env_a, &mut stb, expect.clone())?;
+                // builder W: without an expectation from outside, an `Option` / `Result` type an earlier arm yielded is the
+                // expectation of the later ones (`Joined(s) => Ok(..), Otaa(_) => Err(..)`)
+                let expect_a = match (&expect, &res_ty) {
+                    (None, Some(t @ Ty::Opt(_))) => Some(t.clone()),
+                    _ => expect.clone(),
+                };
+                let (t, ty) = self.tail_expr_ty(&arm.body, &mut env_a, &mut stb, expect_a)?;
                 if !matches!(t, Tail::Panic) {
                     upd(ty, &mut res_ty)?;
                 }
@@ -2530,6 +2627,22 @@ impl<'a> FnTr<'a> {
                 let (n, _) = self.ex(&r.len, env, st, Some(Ty::Int("usize")))?;
                 Ok((format!("(List.replicate (Int.toNat {}) ({} : {}))", paren(&n), v, tv.lean()), Ty::Arr(Box::new(tv))))
             }
+            // builder W: `matches!(e, PAT)` is `match e { PAT => true, _ => false }`
+            Expr::Macro(m) if path_str(&m.mac.path) == "matches" => {
+                struct MatchesArgs(Expr, Pat);
+                impl syn::parse::Parse for MatchesArgs {
+                    fn parse(input: syn::parse::ParseStream) -> syn::Result<Self> {
+                        let e: Expr = input.parse()?;
+                        let _: Token![,] = input.parse()?;
+                        let p = Pat::parse_multi_with_leading_vert(input)?;
+                        let _: Option<Token![,]> = input.parse()?;
+                        Ok(MatchesArgs(e, p))
+                    }
+                }
+                let MatchesArgs(sc, pat) = m.mac.parse_body::<MatchesArgs>().map_err(|e| format!("matches!: {}", e))?;
+                let desugared: Expr = parse_quote!(match #sc { #pat => true, _ => false });
+                self.ex(&desugared, env, st, Some(Ty::Bool))
+            }
             Expr::Macro(m) => Err(format!("unsupported macro expr {}", path_str(&m.mac.path))),
             _ => Err(format!("unsupported expression: {}", quote::quote!(#e))),
         }
@@ -2951,6 +3064,25 @@ impl<'a> FnTr<'a> {
                         Ok((format!("(Option.map (fun {} => {}) {})", pn, ct, paren(&r)), Ty::Opt(Box::new(cty))))
                     }
                 }
+                // builder W: `opt.map_or(d, |x| e)` with a pure default and a pure closure body: `match opt with | some x => e | none => d`
+                "map_or" if m.args.len() == 2 => {
+                    let cl = match &m.args[1] {
+                        Expr::Closure(cl) if cl.inputs.len() == 1 => cl,
+                        _ => return Err("map_or: second argument is not a one-parameter closure".into()),
+                    };
+                    let mut dst: Stmts = vec![];
+                    let (d, dty) = self.ex(&m.args[0], env, &mut dst, expect.clone())?;
+                    let mut env_c = env.clone();
+                    let pn = self.pat(&cl.inputs[0], inner, &mut env_c)?;
+                    let mut cst: Stmts = vec![];
+                    let want = if matches!(dty, Ty::IntLit) { expect.clone() } else { Some(dty.clone()) };
+                    let (ct, cty) = self.ex(&cl.body, &mut env_c, &mut cst, want)?;
+                    if !cst.is_empty() || !dst.is_empty() {
+                        return Err("map_or: default and closure body must be pure expressions".into());
+                    }
+                    let ty = unify(&dty, &cty)?;
+                    Ok((format!("(match {} with | some {} => {} | none => {})", r, pn, ct, d), ty))
+                }
                 _ => Err(format!("unsupported Option method {}", name)),
             },
             Ty::Named(tn) => {
@@ -2974,7 +3106,9 @@ impl<'a> FnTr<'a> {
                 };
                 if !sig.muts.is_empty() {
                     let mut actuals: Vec<&Expr> = vec![&*m.receiver];
-                    actuals.extend(m.args.iter());
+                    // builder W: arguments of cargo features the harness does not enable (`#[cfg(feature = "certification")]
+                    // &mut self.certification`) are not there
+                    actuals.extend(m.args.iter().filter(|a| !matches!(a, Expr::Reference(r) if cfg_disabled(&r.attrs))));
                     // the receiver was translated once already (pure: a place); translate the call afresh
                     return self.emit_call(&sig, &actuals, env, st);
                 }
